@@ -25,7 +25,7 @@ FS_HINTS = [("do-nothing", ""), ("node-file-delete", "'a.txt'"), ("node-file-del
 
 
 def plan(tier):
-    P = [x for x in c01.scenarios(tier) if not x[0].endswith("-reset")]  # (the power-cycle harness is about exceptions: C01)
+    P = [x for x in c01.scenarios(tier) if not x[0].endswith(("-reset", "-noclient"))]  # (the power-cycle harness is about exceptions: C01)
     for v in (HE.GEN[0], HE.GEN[1]):  # members that observe the access counts (nested and flattened)
         P.append((v["name"] + "-fs2", HE.gen_scenario(v), "bfs", dict(depth=3 if tier == "thorough" else 2, budget=60000, hints=FS_HINTS)))
     return P
